@@ -40,6 +40,7 @@ def run(ctx, rep):
     filter_keeps_what_it_tested(F, rep)
     result_identity(F, rep)
     methods_answered_by_the_interpreter(F, rep)
+    equality_reaches_elements(F, rep)
     values_not_views(F, rep)
     # what an assignment instruction writes into a list / map slot is a value, never a view of another slot (shared rule with C08)
     from props import C08 as _c08
@@ -733,3 +734,79 @@ def methods_answered_by_the_interpreter(F, rep, rule="C13.method-dispatch"):
                else ("; ".join(und[:2]) if st == "undecided" else "emitted: %s" % " ".join(jumps.show_item(x) for x in words[0])[:160]),
                f.span, fn=f.path, key="%s|%s" % (rule, v["name"]))
     rep.floor(rule + " variants of DotLookupOption judged", n, 2)
+
+
+PRIM_PATH = "bytecode::variables::primitive::Primitive"
+
+
+def equality_reaches_elements(F, rep, rule="C13.element-equality"):
+    """`xs == ys` compares two lists element by element and `xs.index_of(v)` compares v with each element (Primitive::equals, which refuses the
+    kinds the language gives no `==`: maps, objects, functions - the built-in even unwraps the refusal: "the compiler allowed an illegal type
+    comparison").  The type checker's own answer to "does this type have `==`" (TypeLayout::supports_equ) therefore has to look through list
+    types: evaluated abstractly, supports_equ([T...]) = supports_equ([T]) = supports_equ([int, T]) = supports_equ(T) for T in a universe that
+    contains the refused kinds; and the type checker offers `index_of` on `[T...]` only when T has `==`."""
+    from props import _hashkeys
+    import absint
+    import tables as _tables
+    from absint import Str, Interp
+    ty = _hashkeys.Types(F)
+    se = F.fn("compiler::ast::r#type::TypeLayout::supports_equ")
+    gpt = F.fn("compiler::ast::r#type::TypeLayout::get_property_type")
+    if se is None or gpt is None:
+        raise AnchorMissing("TypeLayout::supports_equ / get_property_type")
+    base = ["Int", "Str", "Map", "Class", ("Opt", "Map"), ("Open", "Int"), ("Open", "Map")]
+    # (a) a list `==` is the element-wise structural equality (<[Primitive] as PartialEq>): which payload types of Primitive have an `eq` that is
+    # not an equality at all - every return is the constant false ("you cannot compare a hash map")?  Read from the MIR of the PartialEq impls.
+    pa = F.adt(PRIM_PATH)
+    if pa is None:
+        raise AnchorMissing(PRIM_PATH)
+    never_equal = set()
+    for v in pa["variants"]:
+        for fl in v["fields"]:
+            pty = mir.strip_generics(fl["ty"])
+            g = F.fn("<%s as core::cmp::PartialEq>::eq" % pty)
+            if g is None:
+                continue
+            rets = [rv for bi, si, dst, rv, s_ in g.assigns() if dst["l"] == 0 and not dst.get("p")]
+            consts = [mir.op_const(rv.get("use")) if "use" in rv else None for rv in rets]
+            if rets and all(c is not None and c.get("int") == "0" for c in consts):
+                never_equal.add(v["name"])
+    rep.extra["payloads_whose_eq_is_constantly_false"] = sorted(never_equal)
+    n = 0
+    heads = {"Map": "Map"}
+    for x in ("Map", ("Opt", "Map"), ("Open", "Map"), ("Alias", "Map"), ("Cb", "Map")):
+        for w in (("Open", x), ("Mixed", [x]), ("Mixed", ["Int", x]), ("Opt", ("Open", x))):
+            key = "%s|supports_equ|%s" % (rule, _hashkeys.show(w))
+            label = "`==` is not offered on %s (a map is equal to nothing, itself included)" % _hashkeys.show(w)
+            if "Map" not in never_equal:
+                rep.ob(rule, label, "exempt", "the PartialEq of the map payload is no longer constantly false", se.span, fn=se.path, key=key)
+                continue
+            pw = _hashkeys.eval_pred(F, se, ty.build(w))
+            if pw is None:
+                rep.ob(rule, label, "undecided", "supports_equ could not be evaluated", se.span, fn=se.path, key=key)
+                continue
+            n += 1
+            rep.ob(rule, label, "violated" if pw else "ok",
+                   "supports_equ(%s) = true: `ms == ms` type-checks and prints false" % _hashkeys.show(w) if pw else "", se.span, fn=se.path, key=key)
+    rep.floor(rule + " supports_equ evaluations", n, 20)
+    m = 0
+    for x in base:
+        px = _hashkeys.eval_pred(F, se, ty.build(x))
+        it = Interp(F, models=_tables.MODELS, max_depth=8, max_paths=512)
+        outs = it.run(gpt, [ty.build(("Open", x), "self"), Str("index_of")])
+        kinds = set()
+        for o in outs:
+            if o.kind == "return" and isinstance(o.value, absint.Variant) and o.value.name in ("Some", "None"):
+                kinds.add(o.value.name)
+            else:
+                kinds.add("?")
+        key = "%s|index_of|%s" % (rule, _hashkeys.show(x))
+        if px is None or it.exhausted or "?" in kinds or len(kinds) != 1:
+            rep.ob(rule, "`index_of` on [%s...]" % _hashkeys.show(x), "undecided", "outcomes %s" % sorted(kinds), gpt.span, fn=gpt.path, key=key)
+            continue
+        m += 1
+        offered = kinds == {"Some"}
+        rep.ob(rule, "`index_of` is offered on [%s...] exactly when %s has `==`" % (_hashkeys.show(x), _hashkeys.show(x)), "ok" if offered == px else "violated",
+               "" if offered == px else "offered=%s, supports_equ=%s: `ms.index_of(ms[0])` on a list of maps compiles and the built-in panics (exit 101)" % (offered, px),
+               gpt.span, fn=gpt.path, key=key)
+    rep.floor(rule + " index_of evaluations", m, 5)
